@@ -453,8 +453,16 @@ def step(j):
         import re
         return bool(re.match(find_list.glob2re(j["pat"]), j["item"]))
     if op == "find_list":
-        f = FindInList(list(j["l"]), do_extrapolate=bool(j.get("x")), do_pre_sort=bool(j.get("ps")),
-                       do_strip=bool(j.get("st")))
+        def _mk():
+            return FindInList(list(j["l"]), do_extrapolate=bool(j.get("x")), do_pre_sort=bool(j.get("ps")),
+                              do_strip=bool(j.get("st")))
+        if j.get("reuse"):      # one instance for every search tagged alike on the same list
+            key = ("FindInList", j["reuse"], tuple(j["l"]), bool(j.get("x")), bool(j.get("ps")), bool(j.get("st")))
+            if key not in _REUSED:
+                _REUSED[key] = _mk()
+            f = _REUSED[key]
+        else:
+            f = _mk()
         m = j["m"]
         if m == "find":
             return list(f.find(j["s"], as_sid=False))
